@@ -161,6 +161,12 @@ func freshPtrLocals(pi *pkgInfo, fd *ast.FuncDecl) map[string]bool {
 							continue
 						}
 					}
+					if call, isCall := s.Rhs[i].(*ast.CallExpr); isCall && s.Tok == token.DEFINE && freshCall(pi, call) {
+						// p := f(values…): the callee is pure in the subset and received no pointer or slice, so
+						// the object p points to is reachable through p only
+						cand[id.Name] = true
+						continue
+					}
 					if obj := pi.info.Defs[id]; obj != nil {
 						if _, isPtr := types.Unalias(obj.Type()).(*types.Pointer); isPtr {
 							bad[id.Name] = true
@@ -205,6 +211,29 @@ func freshPtrLocals(pi *pkgInfo, fd *ast.FuncDecl) map[string]bool {
 		}
 	}
 	return out
+}
+
+// freshCall: every argument (and the receiver) of the call is a plain value without pointers or slices, so a
+// pointer result cannot alias anything the caller can reach (translated callees read no globals).
+func freshCall(pi *pkgInfo, call *ast.CallExpr) bool {
+	for _, a := range call.Args {
+		tv, ok := pi.info.Types[a]
+		if !ok || tv.Type == nil || !sliceFree(tv.Type, 0) {
+			return false
+		}
+	}
+	if sel, ok := call.Fun.(*ast.SelectorExpr); ok {
+		if id, isId := sel.X.(*ast.Ident); isId {
+			if _, isPkg := pi.info.Uses[id].(*types.PkgName); isPkg {
+				return true
+			}
+		}
+		tv, ok := pi.info.Types[sel.X]
+		if !ok || tv.Type == nil || !sliceFree(tv.Type, 0) {
+			return false
+		}
+	}
+	return true
 }
 
 // withOuts appends the current values of the out-pointer parameters to a returned value.
